@@ -20,6 +20,7 @@ from __future__ import annotations
 import ast
 from typing import Dict, FrozenSet, List, Optional, Set, Tuple
 
+from .confinement import unroll_items
 from .astutil import parents, txt
 from .model import FunctionInfo, walk_local
 
@@ -141,6 +142,12 @@ class Origins:
                 else:
                     r.var = self._join(e1, e2)
                     return False
+            elif isinstance(st, ast.For) and unroll_items(st, r.fi.node, r.fi.params) is not None:
+                for elt in unroll_items(st, r.fi.node, r.fi.params):
+                    self.stmt(ast.copy_location(ast.Assign(targets=[st.target], value=elt), st), r, None)
+                    if not self.block(st.body, r):
+                        return False
+                self.block(st.orelse, r)
             elif isinstance(st, (ast.For, ast.AsyncFor, ast.While)):
                 pre = self._copy(r.var)
                 r.pending.append(None)
